@@ -34,6 +34,8 @@ CLAIMS = {
          "stateless schedule enumeration (delay bounding; preemption bounding for the kernel) on two real nodes", SCHED_NOTE + " The two nodes run in one process and are joined by in-memory links (vconn) whose reads, holds, cuts and read sizes the harness owns; the real handshake, protocol, flusher and network table code run unmodified; real TCP behaviour (kernel buffering, RST vs FIN) is not modelled."),
  "C14": ("model_checking", "Fault-point enumeration on two real nodes: a connection cut (or the remote target's termination) is placed at every scheduling point of a link/monitor request on a remote pid, name, alias, event and node, of calls, important and plain sends in flight, and of an established relation whose target is killed concurrently; one sequential history restarts the peer under the same name with a later creation and drives every operation with identifiers of the old incarnation against processes that reuse the same ids. Oracle: acknowledged relation => exactly one notification with the right reason, refused => none, nobody stays blocked, old identifiers refused and never delivered.", "3 C14",
          "fault-point enumeration = stateless schedule enumeration with a low-priority one-operation fault thread on two real nodes", SCHED_NOTE + " The two nodes run in one process and are joined by in-memory links (vconn) whose reads, holds, cuts and read sizes the harness owns; the real handshake, protocol, flusher and network table code run unmodified; real TCP behaviour (kernel buffering, RST vs FIN) is not modelled."),
+ "C20": ("model_checking", "Complete enumeration of a spec grammar (13 minute x 8 hour x 14 day x 8 month x 15 weekday field forms: lists, ranges, steps, L, nL, w#n; a third of the cross product in the quick tier, all of it in the thorough tier) x every 5th (thorough: every) minute of windows around leap day, year end, month ends and every DST transition of five zones, against a set-based crontab evaluator; every one-token mutation of valid specs through AddJob; JobSchedule/Schedule against the evaluator; BFS over AddJob/RemoveJob/EnableJob/DisableJob/tick histories of the real scheduler under the virtual clock (firings = due minutes of present, enabled jobs, once each).", "3 C20",
+         "exhaustive small-scope input enumeration + explicit-state BFS over scheduler histories under a virtual clock", "Trusted base: the reference evaluator (about 120 lines, written from the crontab rules independently of the masks); windows and grammar as listed; years outside 2023-2025 are not covered."),
  "C17": ("model_checking", "Histories: BFS over start/stop/stop-force/unload/member-exit sequences for each mode against a lifecycle model (state, live members, callback counts, reasons) on the real node; all dependency graphs x failing member positions; races: every schedule within the bound of concurrent member deaths, stop vs crash, start vs start, stop vs stop, member death during start-up.", "3 C17",
          "explicit-state BFS over operation histories + stateless schedule enumeration on the real node", SCHED_NOTE),
  "C18": ("model_checking", "Histories: BFS over publish/forged publish/link/unlink/monitor/demonitor/unregister/register/owner kill/subscriber exit sequences for buffer sizes 0..2 with and without notifications against a subscription model (publications handled, buffer returned by subscribe, exit/down on event end, EventStart/EventStop). Races: every schedule within the bound of subscribe vs publish, two token holders publishing, register vs zero-token publish.", "3 C18",
